@@ -1003,6 +1003,49 @@ def dtype_findings(seed, n=4):
     return out[:2], {'dtype_checks': nchecks}
 
 
+def early_reset_findings(seed):
+    """C14 ("no step raises because of the adaptation"): the adaptation of a slow adaptive proposal
+    (jump interval k > 1) is reset BEFORE it has completed its first proposal step -- which is what a
+    tempered chain with reset_after_swap does when the first sweep exchanges two levels -- and the chain
+    is stepped on.  Neither the reset nor the steps may raise, for every adaptive family."""
+    import families as F
+    from epsie.chain import Chain
+    rng = random.Random(seed * 3 + 1)
+    out, n = [], 0
+    for fam in sorted(F.ADAPTIVE):
+        cls, kind, lo, hi = F.FAMILIES[fam]
+        for k in (2, 3):
+            for when in range(0, k):
+                names = ['x%d' % i for i in range(lo)]
+                prng = random.Random(rng.randrange(1 << 30))
+                doms = {p: F.domain_for(kind, prng, i) for i, p in enumerate(names)}
+                box = {p: doms[p] for p in names if kind in ('box', 'intbox')}
+                model = I.LoggedModel(names, kind='quad', box=box)
+                try:
+                    prop = F.make(fam, names, doms, prng, jump_interval=k, window=6, start_step=1)
+                    ch = Chain(names, model, [prop], bit_generator=rng.randrange(1 << 20))
+                    srng = random.Random(5)
+                    ch.start_position = {p: F.start_value(kind, doms[p], srng, i if kind == 'sphere' else 0)
+                                         for i, p in enumerate(names)}
+                    for _ in range(when):
+                        ch.step()
+                    ch.reset_proposals()
+                    for _ in range(2 * k + 2):
+                        ch.step()
+                    n += 1
+                except Exception as e:      # noqa: BLE001
+                    if 'NaN acceptance' in str(e):
+                        continue
+                    out.append(('early-reset-raises:' + fam, '%s with jump_interval %d: a reset of the adaptation after %d '
+                                'iteration(s), or a step after it, raised %r' % (fam, k, when, e),
+                                {'family': fam, 'k': k, 'reset_after_iterations': when}))
+                    break
+            else:
+                continue
+            break
+    return out[:3], {'early_resets': n}
+
+
 def compositions(n):
     """All compositions of n into positive parts, plus variants with zeros inserted."""
     if n == 0:
